@@ -1753,6 +1753,8 @@ def run(ctx):
                 "upload records aged past the grace period followed by the garbage collector's own call DeleteUnused(now - 1h, limit), dumps after every step; "
                 "download requests with every field of the upload request (SVX: every valid-key placement x every way of carrying no valid credentials x the topic parameter - newacc and neighbours - in query / form / cookie for GET and HEAD; the method x key x credential cross product with form fields in a multipart body, sampled in quick; precedence pairs; handler configurations; URL shapes); "
                 "%d seeded avatar histories under store faults: a group topic with a member and the 'me' topics of both users, blocks of [acknowledged {set desc public+attachments}; the adversarial request - k-th adapter call failing (core update, subscription update, link call), a non-owner, private only, nothing to change -; AGE + DeleteUnused(now - 1h) + downloads of the old and the new avatar], {acc user=new} with an avatar and the k-th adapter call failing, memverif's call log of every such request compared with the model's, dumps after every step; "
+                "UPT: bodies of 29 sniff classes x declared Content-Type of the multipart part (absent, the sniffed type, every family, upper case, parameters, malformed) x asatt, uploaded and downloaded through the real handlers, stored type / Content-Type / Content-Disposition / bytes compared with Sys/FilesTypeC16f.v; "
+                "GCRUN: the real largeFileRunGarbageCollection goroutine (periods 20 ms .. 1 s, block 7 / 100 / 1000) over uploads aged 0 s .. 2 h 5 min around the one-hour grace period (AGES), some linked, memverif recording the bound of every FileDeleteUnused call; "
                 "the statements of the real MySQL adapter for GC / linking / FinishUpload executed on sqlite over enumerated tables of up to 3 uploads (old / new, 7 link sets each) x 6 (bound, limit) pairs; "
                 "non-trivial = an id was extracted / a request had an effect / a history operation ran" % (7 if quick else 11, 12 if quick else 400, 8 if quick else 250, 6 if quick else 120),
         "samples": [{"case": lines[i][:300], "impl": impl[i][:300]} for i in ([i for i in (1, 2, 3) if i < len(lines)] + ctx.rng.sample(range(len(lines)), min(6, len(lines))))],
@@ -1768,6 +1770,7 @@ def run(ctx):
             "harness/runner/r_c16.ml glue: text of a placement kind -> constructor (valid key / good token / bad signature ...), upload k <-> model id; for PUBX lines: the sender's (want, given) taken from the MEMBER / P2P / TOPIC lines (the mode algebra itself is C05/C07's), position k of the failing adapter call -> fault plan of the Save model, model time = sum of the AGE lines",
             "harness/overlay/server/zz_verif_c16b_test.go (sender-mode part of the driver: builds the {sub}/{set}/{pub} requests, reads memverif's call log and subscription rows) and memverif.AgeFilesC16b (moves updatedat of the upload records back)",
             "harness/overlay/server/zz_verif_c16c_test.go (SVX: builds GET / HEAD requests with a multipart body, cookies and query for the real largeFileServe; SETX / NEWACCX: builds the {set} / {acc} requests, arms memverif.SetFault(k), reads memverif's call log, the stored public of the topic / user and the users table via memverif.DumpUsersC16c) and the runner's glue for these lines in r_c16.ml: the request environment of the {set desc} model (pre-check outcome, core / sub non-empty) is derived from the line - a group topic is changed by its owner only, the driver's values always differ from the stored ones -, position k of the failing call -> fault plan by a fault-free run of the model",
+            "harness/overlay/server/zz_verif_c16f_test.go (UPT: builds the multipart body with the declared type, computes http.DetectContentType on the zero-padded first 512 bytes and mime.ParseMediaType / FormatMediaType on the declared text - these three results are INPUTS of the model line -, removes the upload afterwards; GCRUN: starts the real GC goroutine, waits for the first recorded FileDeleteUnused call, stops it through its channel) and memverif.RecordGcC16f / noteGcC16f (one line at the entry of memverif's FileDeleteUnused); runner glue: model time in ns, one model tick per GCRUN line (later ticks of the same run, ms apart, remove nothing more: ages are kept 59 s away from one hour)",
             "tools/props/c16.py law monitors (python restatement of the theorems, evaluated on the implementation's answers)",
             "outside the model: bytes on disk, http.DetectContentType, http.ServeContent, multipart parsing, MaxBytesReader (checked by the correspondence only)",
             "FinishUpload / StartUpload store failures are injected through memverif.SetFault; a media handler that is not configured is obtained by UseMediaHandler of an unknown name (recovered)",
